@@ -66,7 +66,8 @@ def gen(rng, tier):
     for k in range(n):
         r = rng.random()
         # the bound-violation streams use values with ~30 significant bits: keep those instances linear
-        inst, info = GI.rand_instance(rng, max_deg=1 if r < 0.25 else 2)
+        # (dependency functions may be quadratic whatever max_deg says: none in those instances)
+        inst, info = GI.rand_instance(rng, max_deg=1 if r < 0.25 else 2, with_deps=(r >= 0.25))
         st = GI.rand_state_for(rng, info)
         cases.append({"op": "inst_evaluate", "input": [inst, st], "stream": "valid"})
         if r < 0.25 and info["usable"]:
